@@ -15,9 +15,9 @@ fn plain_bin() -> String {
 }
 
 fn gen_def(rng: &mut Rng, cid: usize, stats: &mut Stats) -> String {
-    let kind = *rng.pick(&["counter", "intcounter", "gauge", "intgauge", "histogram", "pulling", "countervec", "gaugevec", "histogramvec"]);
+    let kind = *rng.pick(&["counter", "intcounter", "gauge", "intgauge", "histogram", "pulling", "countervec", "gaugevec", "histogramvec", "custom"]);
     // names carry the kind group so that collectors of different kinds never share a name (K2 is C14's subject)
-    let group = match kind { "counter" | "intcounter" | "countervec" => "c", "histogram" | "histogramvec" => "h", _ => "g" };
+    let group = match kind { "counter" | "intcounter" | "countervec" => "c", "histogram" | "histogramvec" => "h", "custom" => "u", _ => "g" };   // a custom collector shares its name with no other collector
     let name = format!("{}_{}", rng.pick(&["m", "req:total", "x"]), group);
     let help = *rng.pick(&["h", "help \\ \"q\" \n é", "日本"]);
     let mut consts: Vec<(String, String)> = vec![];
@@ -25,6 +25,12 @@ fn gen_def(rng: &mut Rng, cid: usize, stats: &mut Stats) -> String {
     stats.hit(&format!("def:{}", kind));
     let vals = [0.0, 1.0, 2.5, 1e21, 0.1, 123456789.0, -0.0, -1.5];
     match kind {
+        // a descriptor-less custom collector handing out 2-3 counter samples of ONE name and label set that differ only in their timestamp
+        // (never set / set to 0 / set to another value): gather orders them by timestamp alone
+        "custom" => {
+            let n = 2 + rng.below(2); let mut tss = vec!["none", "0", "5", "-7", "none", "0"]; let mut subs = vec![];
+            for i in 0..n { let k = rng.below(tss.len()); let ts = tss.remove(k); subs.push(format!("sub={}/{}/{}/{}/{}", hex(&name), hex(help), pairs_str(&consts), f64_hex((i + 1) as f64), ts)); }
+            format!("c16 def c{} kind=custom name={} help={} consts=- vars=- {} nodesc=1", cid, hex(&name), hex(help), subs.join(" ")) }
         "pulling" => format!("c16 def c{} kind=pulling name={} help={} consts=- vars=- val={}", cid, hex(&name), hex(help), f64_hex(*rng.pick(&vals))),
         "countervec" | "gaugevec" | "histogramvec" => {
             let vars: Vec<String> = if rng.chance(50) { vec!["l".into()] } else { vec!["l".into(), "b".into()] };
